@@ -333,6 +333,7 @@ type db struct {
 	extra func(d *db, op simrt.Op) bool // property-specific ops; returns true if handled
 
 	aux     interface{}          // property-private state
+	preOp   func(op simrt.Op)    // called before every op
 	onQuery func(q string)       // called with every client query text before it is sent
 }
 
@@ -346,7 +347,19 @@ func (d *db) fail(class, format string, a ...interface{}) {
 	d.c.Fail(class, "after %s: %s", d.last, fmt.Sprintf(format, a...))
 }
 
-func (d *db) node(i int64) int { return int(i) % len(d.cl.nodes) }
+// node maps a plan's node number to the index of a node that is open and still a member.
+func (d *db) node(i int64) int {
+	var live []int
+	for k, nd := range d.cl.nodes {
+		if nd.opened && !nd.gone {
+			live = append(live, k)
+		}
+	}
+	if len(live) == 0 {
+		return int(i) % len(d.cl.nodes)
+	}
+	return live[int(i)%len(live)]
+}
 
 func cacheTypeName(k int64) string {
 	switch k {
@@ -391,6 +404,12 @@ func (d *db) query(node int, index, q string) ([]interface{}, error) {
 
 func (d *db) apply(op simrt.Op) {
 	ctx := context.Background()
+	if d.preOp != nil {
+		d.preOp(op)
+		if d.c.Failed() {
+			return
+		}
+	}
 	S, I := op.S, op.I
 	switch op.K {
 	case "mkindex":
